@@ -89,14 +89,15 @@ def parseAns (t : String) : HAns :=
 def parseAnswers (s : String) : List HAns :=
   if s.isEmpty then [] else (s.splitOn ",").map parseAns
 
-/-- `cfg=<9 bits>:<cache>` -/
+/-- `cfg=<9 bits>:<cache>[:<capabilities not offered>]` -/
 def parseCfg (s : String) : Cfg :=
   let parts := s.splitOn ":"
   let bits := (parts.headD "").toList
   let g (i : Nat) : Bool := bits.getD i '0' == '1'
   { noOpen := g 0, noOpendir := g 1, inodeFileHandles := g 2, useHostIno := g 3, writeback := g 4,
     xattr := g 5, killprivV2 := g 6, allowDirectIo := g 7, doImport := g 8,
-    cache := ((parts.getD 1 "2").toNat?.getD 2) }
+    cache := ((parts.getD 1 "2").toNat?.getD 2),
+    nocap := ((parts.getD 2 "0").toNat?.getD 0) }
 
 /-- tables for the symbolic names `i<k>` / `h<k>` -/
 structure Names where
